@@ -293,7 +293,9 @@ OWN_CAT = {'**text': 'LYRICS', '**dynam': 'DYNAMICS', '**dyn': 'DYNAMICS', '**ha
 WORDS = ['la', 'le', 'Ky-', '-ri-', 'e', 'lei-son', 'Cañón', '日本', 'o, quote', '"q"', "'tis", "it's", 'a b', 'x,y',
          'ça', 'Ü', '"start', 'end"', '5', 'f', 'p', 'mf', 'I', 'V7', 'ii6', '1', '2 3', 'r', '4c', 'cresc.', 'C7/G',
          'ΑΩ', 'née', '„x“', 'a"b', ',', '"', "''", 'c4', 'M', 'k[', 'clefG2', '1/2', 'ri-', 'rit.', 'ri', 'rs', 're',
-         'r4', '4r', '8rL', 'cresc', 'dim.', 'sf', 'fp', '4cL', 'q', 'qc']
+         'r4', '4r', '8rL', 'cresc', 'dim.', 'sf', 'fp', '4cL', 'q', 'qc',
+         # characters str.splitlines() treats as line breaks; in a Humdrum cell they are ordinary text
+         'la\u2028li', 'x\x0cy', 'q\x85', 'a\u2029', '\x1cz', 'o\x0bo', 'm\x1dn\x1e']
 _text_chars = st.characters(whitelist_categories=('Lu', 'Ll', 'Lt', 'Lm', 'Lo', 'Mn', 'Nd', 'Pc', 'Pd', 'Ps', 'Pe', 'Pi',
                                                   'Pf', 'Po', 'Sm', 'Sc', 'Sk', 'So'),
                             blacklist_characters='@\u00b7')
